@@ -124,19 +124,24 @@ pub enum Outcome {
     OtherError(String),
     Panic(String),
 }
-/// format_code behind catch_unwind; the panic message is kept for the replay file.
+thread_local! { static PANIC_AT: std::cell::RefCell<String> = std::cell::RefCell::new(String::new()); }
+/// format_code behind catch_unwind; the panic message and the place it was raised (crate-relative file:line, written by the
+/// hook of silence_panics) are kept for the replay file: "<message> @<place>".
 pub fn format_guarded(src: &str, cfg: Config, range: Option<Range>) -> Outcome {
+    PANIC_AT.with(|p| p.borrow_mut().clear());
     let r = std::panic::catch_unwind(|| format_code(src, cfg, range, OutputVerification::None));
     match r {
         Ok(Ok(s)) => Outcome::Ok(s),
         Ok(Err(Error::ParseError(_))) => Outcome::ParseError,
         Ok(Err(e)) => Outcome::OtherError(format!("{}", e)),
-        Err(p) => Outcome::Panic(
-            p.downcast_ref::<String>()
+        Err(p) => Outcome::Panic({
+            let m = p.downcast_ref::<String>()
                 .cloned()
                 .or_else(|| p.downcast_ref::<&str>().map(|s| s.to_string()))
-                .unwrap_or_else(|| "panic".into()),
-        ),
+                .unwrap_or_else(|| "panic".into());
+            let at = PANIC_AT.with(|p| p.borrow().clone());
+            if at.is_empty() { m } else { format!("{} @{}", m, at) }
+        }),
     }
 }
 pub fn parses(src: &str, v: LuaVersion) -> bool {
@@ -177,5 +182,12 @@ pub fn token_line(t: &Token) -> Option<String> {
 pub fn silence_panics() {
     // panics of the formatter are caught and reported as records; SVH_PANIC=1 shows them (and the harness's own)
     if std::env::var("SVH_PANIC").is_ok() { return; }
-    std::panic::set_hook(Box::new(|_| {}));
+    std::panic::set_hook(Box::new(|info| {
+        if let Some(l) = info.location() {
+            // crate-relative: `full_moon-1.2.0/src/ast/parsers.rs:2640`, `src/formatters/table.rs:517`
+            let f = l.file();
+            let f = match f.find("/registry/src/") { Some(i) => f[i + 14..].splitn(2, '/').nth(1).unwrap_or(f), None => f.rsplit_once("/repo/").map_or(f, |x| x.1) };
+            PANIC_AT.with(|p| *p.borrow_mut() = format!("{}:{}", f, l.line()));
+        }
+    }));
 }
